@@ -10,16 +10,24 @@ The heap.  `state` = (hp : Z -> option cell, rootp : option Z): a partial map fr
 allocated, and `wr_f` is None as well when the factor written is outside -1..1 (AvlDefs.add_factor's error).  `bind` sequences.
 
 Values.  `a_avl_node *` (const or not) -> option Z;  `int` -> Z (see "Integers");  `a_avl *` must be the function's own tree
-parameter and denotes the root slot of the state.  Variables are renamed at every binding: the value a C variable `x` got from
+parameter and denotes the root slot of the state;  an `int *` parameter (`int *left`) is an int the caller passes by address
+(`&v` of a local int, or its own int* parameter - never a heap cell): the function takes its value as an argument and returns
+the final value next to its result, `*left = e` rebinds it;  a local `a_avl_node **link` is a `slot` (the address of a link:
+`&root->node` = SRoot, `&p->left` = SLeft p, `&p->right` = SRight p, p null = error), `*link` / `*link = v` are `rd_slot` /
+`wr_slot`;  a comparator parameter `int (*cmp)(void const *, void const *)` is a Gallina function `option Z -> option Z -> Z`
+of two pointers - ASSUMED pure: it looks at the user's enclosing structures and never touches the tree - and a `void const *`
+parameter is an opaque value that is only handed to it.  Variables are renamed at every binding: the value a C variable `x` got from
 its k-th binding is `x'k` (`x'0` = the parameter); temporaries are `t'k`, states `st'k`.
 
 What a function becomes.
     no write in it (and in what it calls), returns T       Definition f (st'0 : state) <params> : option T
     writes, void                                            Definition f (st'0 : state) <params> : option state
     writes, returns T                                       Definition f (st'0 : state) <params> : option (T * state)
+    with int* parameters                                    ... : option ([T *] Z * ... * state)   (their final values, in order)
 Calls to functions translated earlier stay calls.  Statements: declarations with initialiser, assignment, `+=`, if / else,
-return (also early), blocks, calls; `while` / `do-while` at the top level of a function body (see Fn.loop: a Fixpoint on a fuel
-argument, one unit per iteration, out of fuel = None; the function then takes `(fuel : nat)` first).  Expressions are translated in continuation style, each read where the C evaluates it
+return (also early), blocks, calls; `while` / `do-while` (see Fn.loop: a Fixpoint on a fuel argument, one unit per iteration,
+out of fuel = None, everything the function does after the loop inside the Fixpoint; the function then takes `(fuel : nat)`
+first, and so does every function that calls it - the callee runs on the caller's fuel).  Expressions are translated in continuation style, each read where the C evaluates it
 (a field the C reads twice is read twice); the statements after an `if` appear in both arms.
 
 Plain layout (A_SIZE_POINTER < 4): fields left, right, parent, factor are read with `rd st cl|cr|cp|cf p` and written with
@@ -36,6 +44,7 @@ layout's own requirement, avl.h), t = factor + 1 in 0..2, proved in AvlTieLemmas
                                                                                    a G outside 0..3 would overwrite pointer bits, G = 3 is the undefined code]
                                                                                   (`(F + 1) - 1` is printed `F`)
     x->parent_ = (a_uptr)P | (x->parent_ & 3)           wr_p x P                   [pw_set_parent: tag kept; same x on both sides]
+    x->parent_ = y->parent_                             wr_p x (rd cp y); wr_f x (rd cf y)   [the word determines both components]
     x->parent_ += (a_uptr)A                             f <- rd cf x; wr_f x (f + A)
                                                                                   [pw_add: modulo 2^64 the word becomes p + (t + A) exactly when
                                                                                    0 <= t + A <= 3 - no carry into / borrow from the pointer bits -
@@ -54,13 +63,14 @@ import sys
 
 PRELUDE = """(* GENERATED by tools/c2avl.py from the current sources - do not edit. *)
 From Coq Require Import ZArith Bool.
-From LibaV Require Import C01.AvlTieLemmas.
+From LibaV Require Import C01.AvlTieLemmas C01.AvlTieLemmasInsert.
 Local Open Scope Z_scope.
 
 """
 
 NODE, TREE = "a_avl_node", "a_avl"
 T_NODE, T_TREE, T_NODEPP = NODE + "*", TREE + "*", NODE + "**"
+T_CMP, T_OPAQUE = "int(*)(void*,void*)", "void*"
 WORD_TYPES = ("unsignedlong", "unsignedlonglong", "a_uptr", "uintptr_t")
 FIELDS = {"left": ("cl", "wr_l", "ptr"), "right": ("cr", "wr_r", "ptr"), "parent": ("cp", "wr_p", "ptr"), "factor": ("cf", "wr_f", "int")}
 WORD = "parent_"
@@ -70,7 +80,9 @@ ROOT_FIELD = "node"
 STAGE12 = ["a_avl_parent", "a_avl_new_child", "a_avl_child", "a_avl_set_child", "a_avl_set_parent_factor", "a_avl_set_parent",
            "a_avl_factor", "a_avl_set_factor", "a_avl_rotate", "a_avl_rotate2"]
 STAGE3 = ["a_avl_handle_growth", "a_avl_insert_adjust"]
-FUNCTIONS = STAGE12 + STAGE3
+STAGE4 = ["a_avl_handle_shrink", "a_avl_handle_remove", "a_avl_remove"]
+STAGE5 = ["a_avl_init", "a_avl_insert", "a_avl_search"]
+FUNCTIONS = STAGE12 + STAGE3 + STAGE4 + STAGE5
 
 
 class Unsupported(Exception):
@@ -319,6 +331,17 @@ class Fn:
                         self.facts.add("pw_parent")
                         return self.ptr(x, E, lambda p: self.read("cp", p, E, k))
             self.bad("integer converted to a node pointer in a form other than `(%s *)(x->%s & ~(a_uptr)3)`" % (NODE, WORD), n)
+        if kind == "UnaryOperator" and n.get("opcode") == "*":
+            b = skip(n["inner"][0])
+            if b.get("kind") == "DeclRefExpr" and E["env"].get(b["referencedDecl"]["name"], (None,))[0] == "slot":
+                sv = E["env"][b["referencedDecl"]["name"]][1]
+                if sv is None:
+                    self.bad("read through the uninitialised %s" % b["referencedDecl"]["name"], n)
+                if self.pure:
+                    raise _Impure()
+                t = self.fresh("t")
+                return "bind (rd_slot %s %s) (fun %s =>\n%s)" % (E["st"], sv, t, k(t))
+            self.bad("dereference of something other than a local `%s **`" % NODE, n)
         if kind == "CallExpr":
             return self.call(n, E, "ptr", lambda v, E1: k(v) if E1["st"] == E["st"] else
                              self.bad("call of a writing function inside an expression", n))
@@ -326,6 +349,28 @@ class Fn:
             c, a, b = n["inner"]
             return self.cond(c, E, lambda: self.ptr(a, E, k), lambda: self.ptr(b, E, k))
         self.bad("pointer expression %s" % kind, n)
+
+    # ---------------------------------------------------------------- `a_avl_node **`: the address of a link
+    def slot(self, n, E, k):
+        n = skip(n)
+        if n.get("kind") == "DeclRefExpr" and E["env"].get(n["referencedDecl"]["name"], (None,))[0] == "slot":
+            v = E["env"][n["referencedDecl"]["name"]][1]
+            if v is None:
+                self.bad("read of the uninitialised variable %s" % n["referencedDecl"]["name"], n)
+            return k(v)
+        if n.get("kind") == "UnaryOperator" and n.get("opcode") == "&":
+            m = skip(n["inner"][0])
+            if m.get("kind") == "MemberExpr" and m.get("isArrow"):
+                b = skip(m["inner"][0])
+                bt = norm_type(qual(b))
+                if bt == T_TREE and b.get("kind") == "DeclRefExpr" and b["referencedDecl"]["name"] == E["root"] and m["name"] == ROOT_FIELD:
+                    return k("SRoot")
+                if bt == T_NODE and m["name"] in ("left", "right"):
+                    # the address is formed from a node pointer that must be valid (null: an error, as a dereference)
+                    ctor = "slot_l" if m["name"] == "left" else "slot_r"
+                    t = self.fresh("t")
+                    return self.ptr(b, E, lambda p: "bind (%s %s) (fun %s =>\n%s)" % (ctor, p, t, k(t)))
+        self.bad("expression of type `%s **` other than `&root->%s`, `&p->left`, `&p->right` or a local variable" % (NODE, ROOT_FIELD), n)
 
     # ---------------------------------------------------------------- int expressions
     def is_int(self, n):
@@ -340,11 +385,16 @@ class Fn:
             return k(n["value"])
         if kind == "DeclRefExpr":
             nm = n["referencedDecl"]["name"]
-            if nm not in E["env"] or E["env"][nm][0] != "int":
+            if nm not in E["env"] or E["env"][nm][0] != "int" or nm in E.get("refs", ()):
                 self.bad("variable %s is not an int known here" % nm, n)
             if E["env"][nm][1] is None:
                 self.bad("read of the uninitialised variable %s" % nm, n)
             return k(E["env"][nm][1])
+        if kind == "UnaryOperator" and n.get("opcode") == "*":
+            b = skip(n["inner"][0])
+            if b.get("kind") == "DeclRefExpr" and b["referencedDecl"]["name"] in E.get("refs", ()):
+                return k(E["env"][b["referencedDecl"]["name"]][1])
+            self.bad("dereference of something other than the function's own int* parameter", n)
         if kind == "UnaryOperator" and n.get("opcode") in ("+", "-"):
             if n["opcode"] == "+":
                 return self.int(n["inner"][0], E, k)
@@ -373,6 +423,8 @@ class Fn:
                 self.facts.add("pw_tag")
                 return self.ptr(x, E, lambda p: self.read("cf", p, E, lambda f: k("(%s + 1)" % f)))
             self.bad("integer cast in a form other than `(int)(x->%s & 3)`" % WORD, n)
+        if kind == "CallExpr" and self.is_cmp_call(n, E):
+            return self.cmp_call(n, E, k)
         if kind == "CallExpr":
             return self.call(n, E, "int", lambda v, E1: k(v) if E1["st"] == E["st"] else
                              self.bad("call of a writing function inside an expression", n))
@@ -384,6 +436,30 @@ class Fn:
                 self.bad("?: on int whose parts read the heap", n)
             return k("(if %s then %s else %s)" % (bc, ta, tb))
         self.bad("int expression %s%s" % (kind, " " + n.get("opcode") if n.get("opcode") else ""), n)
+
+    def is_cmp_call(self, n, E):
+        cal = skip(n["inner"][0])
+        return cal.get("kind") == "DeclRefExpr" and E["env"].get(cal["referencedDecl"].get("name"), (None,))[0] == "cmp"
+
+    def cmp_call(self, n, E, k):
+        """cmp(a, b): a and b are node pointers (converted to `const void *`) or the opaque context parameter"""
+        f = E["env"][skip(n["inner"][0])["referencedDecl"]["name"]][1]
+        if f is None:
+            self.bad("the comparator has no value here", n)
+        args = n["inner"][1:]
+        if len(args) != 2:
+            self.bad("comparator called with %d arguments" % len(args), n)
+
+        def arg(a, kk):
+            a = skip(a)
+            while a.get("kind") == "ImplicitCastExpr" and a.get("castKind") in ("BitCast", "NoOp") and norm_type(qual(a)) == T_OPAQUE:
+                a = skip(a["inner"][0])
+            if a.get("kind") == "DeclRefExpr" and E["env"].get(a["referencedDecl"]["name"], (None,))[0] == "opaque":
+                if E["env"][a["referencedDecl"]["name"]][1] is None:
+                    self.bad("%s has no value here" % a["referencedDecl"]["name"], n)
+                return kk(E["env"][a["referencedDecl"]["name"]][1])
+            return self.ptr(a, E, kk)
+        return arg(args[0], lambda x: arg(args[1], lambda y: k("(%s %s %s)" % (f, x, y))))
 
     @staticmethod
     def balanced(s):
@@ -495,7 +571,11 @@ class Fn:
             if nm not in E["env"]:
                 self.bad("assignment to %s, which is not a local variable known here" % nm, m)
             ty = E["env"][nm][0]
-            if skip(rhs).get("kind") == "CallExpr":
+            if ty == "slot":
+                return self.slot(rhs, E, lambda v: k(self.with_var(E, nm, ty, v)))
+            if ty in ("cmp", "opaque"):
+                self.bad("assignment to the parameter %s" % nm, m)
+            if skip(rhs).get("kind") == "CallExpr" and not (ty == "int" and self.is_cmp_call(skip(rhs), E)):
                 # x = f(...): f may write (the state after the call is the state the assignment leaves)
                 return self.call(skip(rhs), E, ty, lambda v, E1: k(self.with_var(E1, nm, ty, v)), name=nm)
             if ty == "ptr":
@@ -518,8 +598,24 @@ class Fn:
                 return self.word_store(m, lhs, b, rhs, E, k)
             self.bad("write to the field `%s`" % lhs.get("name"), m)
         if lk == "UnaryOperator" and lhs.get("opcode") == "*":
-            # *(c ? &x->left : &x->right) = v
             c = skip(lhs["inner"][0])
+            if c.get("kind") == "DeclRefExpr" and E["env"].get(c["referencedDecl"]["name"], (None,))[0] == "slot":
+                # *link = v  (v may be the value of a writing call: the store is made in the state the call leaves)
+                nm = c["referencedDecl"]["name"]
+
+                def put(v, E1):
+                    sv = E1["env"][nm][1]
+                    return self.bind_state("wr_slot %s %s %s" % (E1["st"], sv, v), E1, k)
+                if E["env"][nm][1] is None:
+                    self.bad("write through the uninitialised %s" % nm, m)
+                if skip(rhs).get("kind") == "CallExpr":
+                    return self.call(skip(rhs), E, "ptr", put)
+                return self.ptr(rhs, E, lambda v: put(v, E))
+            if c.get("kind") == "DeclRefExpr" and c["referencedDecl"]["name"] in E.get("refs", ()):
+                # *left = e: the int the caller passed by address (not part of the heap)
+                nm = c["referencedDecl"]["name"]
+                return self.int(rhs, E, lambda v: k(self.with_var(E, nm, "int", v)))
+            # *(c ? &x->left : &x->right) = v
             if c.get("kind") == "ConditionalOperator":
                 cnd, a, b = c["inner"]
                 arms = []
@@ -540,7 +636,15 @@ class Fn:
     def word_store(self, m, lhs, b, rhs, E, k):
         """x->parent_ = (a_uptr)P | TAG"""
         r = skip(rhs)
-        form = "`x->%s = (a_uptr)P | (a_uptr)(G)` or `x->%s = (a_uptr)P | (x->%s & 3)`" % (WORD, WORD, WORD)
+        y = self.word_field(rhs)
+        if y is not None:
+            # x->parent_ = y->parent_: both components copied [pw_unique: a word determines its pointer and its tag];
+            # printed as the plain layout's  x->parent = y->parent; x->factor = y->factor;
+            self.facts.add("pw_unique")
+            return self.ptr(y, E, lambda q: self.read("cp", q, E, lambda v: self.ptr(b, E, lambda p: self.bind_state("wr_p %s %s %s" % (E["st"], p, v), E,
+                            lambda E1: self.ptr(y, E1, lambda q1: self.read("cf", q1, E1, lambda f: self.ptr(b, E1, lambda p1:
+                                                self.bind_state("wr_f %s %s %s" % (E1["st"], p1, f), E1, k))))))))
+        form = "`x->%s = (a_uptr)P | (a_uptr)(G)`, `x->%s = (a_uptr)P | (x->%s & 3)` or `x->%s = y->%s`" % (WORD, WORD, WORD, WORD, WORD)
         if r.get("kind") != "BinaryOperator" or r.get("opcode") != "|" or not is_word_type(r):
             self.bad("the word `%s` is assigned something other than %s" % (WORD, form), m)
         pp, tg = skip(r["inner"][0]), skip(r["inner"][1])
@@ -554,6 +658,13 @@ class Fn:
                 self.bad("`x->%s = (a_uptr)P | (y->%s & 3)` with y not the variable x" % (WORD, WORD), m)
             self.facts.add("pw_set_parent")
             return self.ptr(P, E, lambda v: self.ptr(b, E, lambda p: self.bind_state("wr_p %s %s %s" % (E["st"], p, v), E, k)))
+        lit = self.literal(tg)
+        if lit is not None and tg.get("kind") in ("ImplicitCastExpr", "IntegerLiteral"):
+            # x->parent_ = (a_uptr)P | 1: a literal tag (a_avl_init: factor 0)
+            self.facts.add("pw_make")
+            f = str(lit[0] - 1)
+            return self.ptr(P, E, lambda v: self.ptr(b, E, lambda p: self.bind_state("wr_p %s %s %s" % (E["st"], p, v), E,
+                            lambda E1: self.ptr(b, E1, lambda p1: self.bind_state("wr_f %s %s %s" % (E1["st"], p1, f if lit[0] >= 1 else "(%s)" % f), E1, k)))))
         if tg.get("kind") == "CStyleCastExpr" and tg.get("castKind") == "IntegralCast" and is_word_type(tg) and self.is_int(skip(tg["inner"][0])):
             self.facts.add("pw_make")
 
@@ -598,7 +709,7 @@ class Fn:
 
     def named(self, ev, rhs, E, nm, k):
         r = skip(rhs)
-        if r.get("kind") == "CallExpr":
+        if r.get("kind") == "CallExpr" and not self.is_cmp_call(r, E):
             return self.call(r, E, "ptr" if ev == self.ptr else "int", lambda v, E1: k(v) if E1["st"] == E["st"] else
                              self.bad("call of a writing function in an initialiser", r), name=nm)
         return ev(rhs, E, k)
@@ -612,34 +723,68 @@ class Fn:
         sig = self.tr.done.get(nm)
         if sig is None:
             self.bad("call to %s, which has not been translated" % nm, m)
-        if sig.get("fuel"):
-            self.bad("call to %s, which contains a loop" % nm, m)
         if want is not None and sig["ret"] != want:
             self.bad("call to %s (returns %s) where a value of kind %s is needed" % (nm, sig["ret"], want), m)
         args = m["inner"][1:]
         if len(args) != len(sig["params"]):
             self.bad("call to %s with %d arguments" % (nm, len(args)), m)
         vals = []
+        refs = []                 # caller variables passed by address, in the callee's parameter order
+        if sig.get("fuel"):
+            self.has_loop = True  # the callee's loops run on the caller's fuel
 
         def go(i):
             if i == len(args):
-                app = "%s %s%s" % (nm, E["st"], "".join(" " + v for v in vals))
+                app = "%s%s %s%s" % (nm, " fuel" if sig.get("fuel") else "", E["st"], "".join(" " + v for v in vals))
                 if not sig["writes"]:
                     if sig["ret"] == "void":
                         self.bad("call to %s, which has no effect" % nm, m)
                     t = self.fresh(name)
                     return "bind (%s) (fun %s =>\n%s)" % (app, t, k(t if want else None, E))
+                parts = []
+                t = None
+                if sig["ret"] != "void":
+                    t = self.fresh(name) if want else "_"
+                    parts.append(t)
+                E2 = E
+                for v in refs:
+                    nv = self.fresh(v)
+                    parts.append(nv)
+                    E2 = self.with_var(E2, v, "int", nv)
                 s = self.fresh("st")
-                E2 = self.with_st(E, s)
-                if sig["ret"] == "void":
-                    return "bind (%s) (fun %s =>\n%s)" % (app, s, k(None, E2))
-                t = self.fresh(name) if want else "_"
-                return "bind (%s) (fun '(%s, %s) =>\n%s)" % (app, t, s, k(t if want else None, E2))
+                parts.append(s)
+                E2 = self.with_st(E2, s)
+                pat = parts[0] if len(parts) == 1 else "'(" + ", ".join(parts) + ")"
+                return "bind (%s) (fun %s =>\n%s)" % (app, pat, k(t if (want and t) else None, E2))
             kind = sig["params"][i][1]
             a = skip(args[i])
             if kind == "tree":
                 if a.get("kind") != "DeclRefExpr" or a["referencedDecl"]["name"] != E["root"]:
                     self.bad("call to %s with a tree other than the caller's own" % nm, m)
+                return go(i + 1)
+            if kind == "intref":
+                # `&v` of a local int, or the caller's own int* parameter: the callee gets the value and hands the new one back
+                if a.get("kind") == "UnaryOperator" and a.get("opcode") == "&":
+                    a = skip(a["inner"][0])
+                    ok = a.get("kind") == "DeclRefExpr" and a["referencedDecl"]["name"] not in E.get("refs", ())
+                elif a.get("kind") == "DeclRefExpr":
+                    ok = a["referencedDecl"]["name"] in E.get("refs", ())
+                else:
+                    ok = False
+                v = a.get("referencedDecl", {}).get("name") if ok else None
+                if not ok or v not in E["env"] or E["env"][v][0] != "int":
+                    self.bad("call to %s: the int* argument is neither `&<local int>` nor the caller's own int* parameter" % nm, m)
+                if E["env"][v][1] is None:
+                    self.bad("call to %s: `%s` is passed by address before it has a value" % (nm, v), m)
+                if v in refs:
+                    self.bad("call to %s: the same variable passed by address twice" % nm, m)
+                refs.append(v)
+                vals.append(E["env"][v][1])
+                return go(i + 1)
+            if kind in ("cmp", "opaque"):
+                if a.get("kind") != "DeclRefExpr" or E["env"].get(a["referencedDecl"]["name"], (None,))[0] != kind:
+                    self.bad("call to %s: argument %d is not the caller's own %s parameter" % (nm, i + 1, kind), m)
+                vals.append(E["env"][a["referencedDecl"]["name"]][1])
                 return go(i + 1)
             ev = self.ptr if kind == "ptr" else self.int
             return ev(args[i], E, lambda v: (vals.append(v), go(i + 1))[1])
@@ -653,9 +798,7 @@ class Fn:
         knext = lambda E1: self.stmts(rest, E1, k, kret, top)
         kind = s.get("kind")
         if kind in ("WhileStmt", "DoStmt"):
-            if not top:
-                self.bad("loop inside a block (only a loop at the top level of the function body is translated)", s)
-            return self.loop(s, rest, E, k, kret)
+            return self.loop(s, E, knext, kret)
         if kind == "CompoundStmt":
             inner = s.get("inner", []) or []
             declared = [d["name"] for x in inner if x.get("kind") == "DeclStmt" for d in x.get("inner", []) if d.get("kind") == "VarDecl"]
@@ -680,7 +823,7 @@ class Fn:
                 if d.get("kind") != "VarDecl":
                     self.bad("declaration %s" % d.get("kind"), s)
                 t = norm_type(qual(d))
-                ty = "ptr" if t == T_NODE else "int" if t == "int" else None
+                ty = "ptr" if t == T_NODE else "int" if t == "int" else "slot" if t == T_NODEPP else None
                 if ty is None:
                     self.bad("local variable %s of type `%s`" % (d.get("name"), qual(d)), s)
                 if d.get("storageClass"):
@@ -688,6 +831,10 @@ class Fn:
                 init = [c for c in d.get("inner", []) if c.get("kind", "").endswith(("Expr", "Operator", "Literal"))]
                 if not init:
                     return go(i + 1, self.with_var(E1, d["name"], ty, None))
+                if ty == "slot":
+                    return self.slot(init[0], E1, lambda v: go(i + 1, self.with_var(E1, d["name"], ty, v)))
+                if ty == "int" and skip(init[0]).get("kind") == "CallExpr" and self.is_cmp_call(skip(init[0]), E1):
+                    return self.int(init[0], E1, lambda v: go(i + 1, self.with_var(E1, d["name"], ty, v)))
                 ev = self.ptr_named if ty == "ptr" else self.int_named
                 return ev(init[0], E1, d["name"], lambda v: go(i + 1, self.with_var(E1, d["name"], ty, v)))
             return go(0, E)
@@ -724,14 +871,14 @@ class Fn:
             return n.get("kind") in kinds or any(self.has_kind(c, kinds) for c in n.get("inner", []) or [])
         return False
 
-    def loop(self, s, rest, E, k, kret):
-        """`while (c) S` / `do S while (c);` at the top level of the function body becomes
+    def loop(self, s, E, knext, kret):
+        """`while (c) S` / `do S while (c);` becomes
                Fixpoint <f>_loop<n> (fuel : nat) (st'0 : state) (<carried variables>) {struct fuel} : <result type of f> :=
                  match fuel with O => None | S fuel' => <one iteration: ... the recursive call on fuel' | the rest of f> end.
            One unit of fuel per iteration, taken at its head (before the condition of a while, before the body of a do-while);
-           running out of fuel is None.  The statements that follow the loop are part of the Fixpoint (the exit path runs them),
-           a `return` in the body returns from f.  Carried: the variables initialised on entry that an iteration may read before
-           it assigns them, or that the statements after the loop use."""
+           running out of fuel is None.  Everything f does after the loop is part of the Fixpoint (the exit path runs it), a
+           `return` in the body returns from f.  Carried: the variables with a value on entry that an iteration may read before it
+           assigns them or that the code after the loop reads (found by translating with the variable left without a value)."""
         kind = s["kind"]
         if kind == "WhileStmt":
             if len(s["inner"]) != 2:
@@ -741,14 +888,10 @@ class Fn:
             body, cnd = s["inner"]
         if self.has_kind(s["inner"], ("BreakStmt", "ContinueStmt", "WhileStmt", "DoStmt", "ForStmt")):
             self.bad("break / continue / nested loop", s)
-        if self.has_kind(body, ("DeclStmt",)):
-            self.bad("declaration inside a loop body", s)
-        after = self.refs(rest)
-        inside = self.refs([cnd, body])
-        if E["root"] in after | inside:
-            pass                                   # the tree parameter is not a value: nothing to carry
-        cand = [v for v in E["env"] if E["env"][v][1] is not None and (v in inside or v in after)]
-        # continuation style reaches a loop once per path that leads to it: one Fixpoint per (loop, set of initialised variables)
+        if E.get("inloop"):
+            self.bad("a second loop on a path that has already run one", s)
+        cand = [v for v in E["env"] if E["env"][v][1] is not None]
+        # continuation style reaches a loop once per path that leads to it: one Fixpoint per (loop, set of variables with a value)
         memo = self.__dict__.setdefault("loops", {})
         key = (s.get("id"), tuple(cand))
         if key in memo:
@@ -758,45 +901,42 @@ class Fn:
         name = "%s_loop%d" % (self.name, self.nloops)
 
         def build(carried):
-            saved = (self.counter, set(self.facts))
+            saved = self.counter
             self.counter = {}
             EL = dict(E)
             EL["env"] = {v: ((t[0], v + "'0") if v in carried else (t[0], None)) for v, t in E["env"].items()}
             EL["st"] = "st'0"
+            EL["inloop"] = True
 
             def again(E1):
                 vals = []
                 for v in carried:
                     if E1["env"][v][1] is None:
-                        self.bad("%s may be uninitialised at the next iteration" % v, s)
+                        self.bad("%s may be without a value at the next iteration" % v, s)
                     vals.append(E1["env"][v][1])
                 return "%s fuel' %s%s" % (name, E1["st"], "".join(" " + x for x in vals))
 
-            exit_ = lambda E1: self.stmts(rest, E1, k, kret, True)
             try:
                 if kind == "DoStmt":
-                    it = self.stmts([body], EL, lambda E1: self.cond(cnd, E1, lambda: again(E1), lambda: exit_(E1)), kret)
+                    it = self.stmts([body], EL, lambda E1: self.cond(cnd, E1, lambda: again(E1), lambda: knext(E1)), kret)
                 else:
-                    it = self.cond(cnd, EL, lambda: self.stmts([body], EL, again, kret), lambda: exit_(EL))
+                    it = self.cond(cnd, EL, lambda: self.stmts([body], EL, again, kret), lambda: knext(EL))
             finally:
-                cnt = self.counter
-                self.counter = saved[0]
+                self.counter = saved
             return it
 
         carried = list(cand)
         for v in list(cand):
-            if v in after:
-                continue
             trial = [x for x in carried if x != v]
-            facts = set(self.facts)
+            facts, hl = set(self.facts), self.has_loop
             try:
                 build(trial)
-                carried = trial                    # an iteration never reads v before assigning it
+                carried = trial                    # neither an iteration nor the code after the loop reads v before assigning it
             except Unsupported:
                 pass
-            self.facts = facts
+            self.facts, self.has_loop = facts, hl
         it = build(carried)
-        gty = {"ptr": "option Z", "int": "Z"}
+        gty = {"ptr": "option Z", "int": "Z", "cmp": "option Z -> option Z -> Z", "opaque": "option Z", "slot": "slot"}
         params = "".join(" (%s'0 : %s)" % (v, gty[E["env"][v][0]]) for v in carried)
         self.defs.append("Fixpoint %s (fuel : nat) (st'0 : state)%s {struct fuel} : %s :=\n  match fuel with\n  | O => None\n  | S fuel' =>\n%s\n  end."
                          % (name, params, self.rty, ind(it, 4)))
@@ -812,7 +952,7 @@ class Fn:
         ret = {T_NODE: "ptr", "int": "int", "void": "void"}.get(rt)
         if ret is None:
             self.bad("return type `%s`" % rt, self.node)
-        env, root, sig_params = {}, None, []
+        env, root, sig_params, refs = {}, None, [], []
         for p in params:
             t = norm_type(qual(p))
             if t == T_NODE:
@@ -824,35 +964,48 @@ class Fn:
             elif t == T_TREE and root is None:
                 root = p["name"]
                 sig_params.append((p["name"], "tree"))
+            elif qual(p).replace("const", "").replace(" ", "") == T_CMP:
+                # a comparator: a pure function of two pointers (it looks at the user's enclosing structures, never at the tree)
+                env[p["name"]] = ("cmp", p["name"] + "'0")
+                sig_params.append((p["name"], "cmp"))
+            elif t == T_OPAQUE:
+                # an opaque pointer that is only handed to the comparator
+                env[p["name"]] = ("opaque", p["name"] + "'0")
+                sig_params.append((p["name"], "opaque"))
+            elif t == "int*":
+                # an int the caller passes by address: the function takes its value and returns the final one
+                env[p["name"]] = ("int", p["name"] + "'0")
+                sig_params.append((p["name"], "intref"))
+                refs.append(p["name"])
             else:
                 self.bad("parameter %s of type `%s`" % (p.get("name"), qual(p)), p)
-        writes = self.tr.writes(body)
+        writes = self.tr.writes(body) or bool(refs)
         if ret == "void" and not writes:
             self.bad("void function without effect on the modelled state", self.node)
-        E = {"env": env, "st": "st'0", "root": root}
-        gty = {"ptr": "option Z", "int": "Z"}
+        E = {"env": env, "st": "st'0", "root": root, "refs": tuple(refs)}
+        gty = {"ptr": "option Z", "int": "Z", "intref": "Z", "cmp": "option Z -> option Z -> Z", "opaque": "option Z", "slot": "slot"}
         self.defs, self.has_loop = [], False
-        if not writes:
-            self.rty = "option (%s)" % gty[ret]
-        elif ret == "void":
-            self.rty = "option state"
-        else:
-            self.rty = "option (%s * state)" % gty[ret]
+        comps = ([gty[ret]] if ret != "void" else []) + ["Z" for _ in refs] + (["state"] if writes else [])
+        self.rty = "option (%s)" % " * ".join(comps) if len(comps) > 1 or not writes else "option state"
+
+        def result(v, E1):
+            parts = ([v] if ret != "void" else []) + [E1["env"][r][1] for r in refs] + ([E1["st"]] if writes else [])
+            return "Some %s" % (parts[0] if len(parts) == 1 else "(" + ", ".join(parts) + ")")
 
         def kret(s, E1):
             has = bool(s.get("inner"))
             if has != (ret != "void"):
                 self.bad("return with/without a value", s)
             if ret == "void":
-                return "Some %s" % E1["st"]
+                return result(None, E1)
             ev = self.ptr if ret == "ptr" else self.int
-            return ev(s["inner"][0], E1, lambda v: "Some (%s, %s)" % (v, E1["st"]) if writes else "Some %s" % v)
+            return ev(s["inner"][0], E1, lambda v: result(v, E1))
 
-        kend = (lambda E1: "Some %s" % E1["st"]) if ret == "void" else \
+        kend = (lambda E1: result(None, E1)) if ret == "void" else \
             (lambda E1: self.bad("control reaches the end of a non-void function", self.node))
         term = self.stmts(body.get("inner", []) or [], E, kend, kret, True)
         ps = "".join(" (%s'0 : %s)" % (n, gty[kd]) for n, kd in sig_params if kd != "tree")
-        self.sig = {"writes": writes, "params": sig_params, "ret": ret, "fuel": self.has_loop}
+        self.sig = {"writes": writes, "params": sig_params, "ret": ret, "fuel": self.has_loop, "refs": refs}
         fuel = " (fuel : nat)" if self.has_loop else ""
         return "\n\n".join(self.defs + ["Definition %s%s (st'0 : state)%s : %s :=\n%s." % (self.name, fuel, ps, self.rty, ind(term))])
 
